@@ -166,3 +166,16 @@ Example w_check_source_rejects :
     [Some (true, [(2, (1, 2, (1, 2))); (DIC + 0, (2, 5, (2, 5)))])]
     [Some (true, [(0, (1, 2, (1, 2))); (1, (2, 3, (2, 3))); (DIC + 0, (3, 5, (3, 5)))])] = false.
 Proof. vm_compute. reflexivity. Qed.
+
+(* the provenance fact of split_into is needed: with the lexicon taken from the TARGET list's dictionary, the parts of the same
+   token depend on which list they are written to (text "ab", token 5 declaring units 1 2; the source dictionary gives unit 1 a
+   one-byte key, the other dictionary a two-byte key) *)
+From SudachiVerif Require Model.SplitLists.
+Lemma split_into_lexicon_of_target_interferes :
+  let d1 := SplitLists.mkSDict (fun _ => 1%N) (fun w => if N.eqb w 5 then [1%N; 2%N] else []) (fun _ => []) in
+  let d2 := SplitLists.mkSDict (fun _ => 2%N) (fun _ => []) (fun _ => []) in
+  let src := SplitLists.mkMList d1 [97%N; 98%N] 0%N [Split.mkNode 0 2 0 2 5] in
+  let r o := match SplitLists.split_into_lists_gen SplitLists.Out SplitLists.Self true Split.ModeA src 0 o with
+             | Some (b, l) => Some (b, map Split.ne (SplitLists.ml_nodes l)) | None => None end in
+  r (SplitLists.mkMList d1 [] 0%N []) <> r (SplitLists.mkMList d2 [] 0%N []).
+Proof. vm_compute. discriminate. Qed.
